@@ -175,16 +175,27 @@ func (c *Ctx) unwatch() {
 }
 
 func (c *Ctx) watchedChanged() bool {
+	changed := false
+	onlyABA := true
 	for wk, ver := range c.S.Watches {
 		// expiry since WATCH counts as a modification
-		if _, amb := c.M.GetI(wk.db, wk.key, c.Now, c.NowHi); amb {
+		o, amb := c.M.GetI(wk.db, wk.key, c.Now, c.NowHi)
+		if amb {
 			c.Ambig = true
 		}
 		if c.M.Ver[wk.db][wk.key] != ver {
-			return true
+			changed = true
+			// missing when watched and missing again now: created and removed in between
+			if c.S.WatchEx[wk] || o != nil {
+				onlyABA = false
+			}
 		}
 	}
-	return false
+	c.S.LastAbort = ""
+	if changed && onlyABA {
+		c.S.LastAbort = "missing-key-created-and-removed"
+	}
+	return changed
 }
 
 // execOne runs session-level commands and data commands.
@@ -309,8 +320,27 @@ func (c *Ctx) execOne(args []string, inExec bool) Exp {
 			return AnyErr()
 		}
 		return c.exec(append([]string{"lmpop"}, args[2:]...))
+	case "unwatch":
+		// queued inside MULTI: a no-op that answers OK (EXEC drops the watches anyway)
+		c.unwatch()
+		return OK()
 	case "client", "command", "info":
 		return UnspecRO("introspection command not modelled")
 	}
 	return c.exec(args)
+}
+
+// ArgumentError reports whether the command fails with a plain error on an empty database, i.e. (for
+// the commands the emulator implements) because of its arguments and not because of the data.
+func ArgumentError(args []string) bool {
+	e := New().Apply(NewSession(), args, 1_700_000_000_000)
+	return e.Err == "ERR" || e.Err == "*"
+}
+
+// RejectQueued undoes the queueing of the last command and marks the transaction as failed at queue time.
+func (s *Session) RejectQueued() {
+	if s.InMulti && len(s.Queue) > 0 {
+		s.Queue = s.Queue[:len(s.Queue)-1]
+		s.Dirty = true
+	}
 }
